@@ -151,12 +151,18 @@ class InterestTreeNode:
         self.pending_list.append(
             PendingIntEntry(future, deadline, param.can_be_prefix, param.must_be_fresh, validator, implicit_sha256))
 
-    def nack_interest(self, nack_reason: int) -> bool:
+    def nack_interest(self, nack_reason: int, implicit_sha256: enc.BinaryStr = b'') -> bool:
+        # Only the Interests with the nacked name are affected: the node also holds Interests that
+        # carry a (different) implicit digest component, which is not part of the node's name.
+        remaining_entries = []
         for entry in self.pending_list:
+            if bytes(entry.implicit_sha256) != bytes(implicit_sha256):
+                remaining_entries.append(entry)
             # The timer may have fired (cancelling the future) in this very loop iteration
-            if not entry.future.done():
+            elif not entry.future.done():
                 entry.future.set_exception(types.InterestNack(nack_reason))
-        return True
+        self.pending_list = remaining_entries
+        return not remaining_entries
 
     def satisfy(self, data: types.DataTuple, is_prefix: bool) -> bool:
         unsatisfied_entries = []
@@ -599,13 +605,20 @@ class NDNApp:
             del self._pit[prefix]
 
     def _on_nack(self, name: enc.FormalName, nack_reason: int):
+        # As in express_raw_interest, an implicit digest is not part of the PIT node's name
+        if name and enc.Component.get_type(name[-1]) == enc.Component.TYPE_IMPLICIT_SHA256:
+            node_name = name[:-1]
+            implicit_sha256 = enc.Component.get_value(name[-1])
+        else:
+            node_name = name
+            implicit_sha256 = b''
         try:
-            node = self._pit[name]
+            node = self._pit[node_name]
         except KeyError:
             node = None
         if node:
-            if node.nack_interest(nack_reason):
-                del self._pit[name]
+            if node.nack_interest(nack_reason, implicit_sha256):
+                del self._pit[node_name]
 
     def express(self, name: enc.NonStrictName, validator: Validator,
                 app_param: enc.BinaryStr | None = None,
